@@ -1,6 +1,7 @@
 import DigModel.Proofs.ApiLemmas
 import DigModel.Proofs.ReachApi
 import DigModel.Proofs.ProvApi
+import DigModel.Proofs.DepsApi
 /-
   C03 — Laziness.
 
@@ -19,8 +20,24 @@ import DigModel.Proofs.ProvApi
   farther providers of a shadowed key are outside the closure.  (`engine_only`: induction over the resolver.)
   `C03_dependencies_complete_first` (whole programs): whatever value is handed to a user function stems
   from executions that had already exited successfully (`Prov`).
-  `C03_all` (every not-yet-built constructor of the must-run closure has run after a successful Invoke) is
-  carried by the correspondence check and `pred_c03`.
+  The "must-run" half — when Invoke succeeds, what it needed has run — is proved through availability (`HasKey`: a
+  decorated value or a value for the key is cached in a scope on the path to the root, i.e. it can be had without
+  running anything):
+  * `C03_success_leaves_dependencies_built` (whole programs): after a successful Invoke on the container at the end of any
+    history, every required (non-optional) single dependency of the invoked function — positional, named or a field at
+    any depth of a parameter object — is available from the invoking scope;
+  * `C03_built_nodes_have_their_dependencies` (whole programs, invariant `Deps` of every operation, proved through the six
+    resolver functions): in every reachable container every built constructor, and every decorator that has run, has
+    all its required single dependencies available from the scope it was built from — so availability is closed under
+    "depends on";
+  * `C03_available_means_built`: an available key was produced by a built constructor living in that scope on the path
+    and declaring the key, or by a decorator of that scope that has run (`Just`, `Just2`).
+  Together: after a successful Invoke, the constructors and decorators that produced the invoked function's required
+  single dependencies are built, and so are, transitively, those that produced theirs.  For non-soft value groups:
+  `C10_feeders_built` (every provider of the key on the path is built when the parameter is delivered).  An optional
+  dependency whose constructor cannot be built for missing dependencies is delivered as the zero value and its
+  constructor does not run (`providerStep`); the exact must-run closure including that case and the interplay with
+  decorators being skipped while they run is compared with the real library by the trace predicate `pred_c03`.
 -/
 namespace Dig.C03
 
@@ -80,6 +97,59 @@ example (w : Who) : ¬ Reach siblingTree 1 (.single ⟨5, "", ""⟩) w := by
   | provSelf hn _ => rw [hanc] at hn; simp [nearestProv, siblingTree, St.scope, agetL, aget] at hn
   | provDep hn _ _ _ => rw [hanc] at hn; simp [nearestProv, siblingTree, St.scope, agetL, aget] at hn
 
+private theorem reachable_deps (p : Program) : Deps (runProgram p).1 := deps_program p
+
+theorem C03_built_nodes_have_their_dependencies (p : Program) :
+    (∀ n, ((runProgram p).1.ctor n).called = true → ∀ k ∈ reqSinglesL ((runProgram p).1.ctor n).params,
+      HasKey (runProgram p).1 ((runProgram p).1.ctor n).origS k) ∧
+    (∀ d, ((runProgram p).1.deco d).state = .called → ∀ k ∈ reqSinglesL ((runProgram p).1.deco d).params,
+      HasKey (runProgram p).1 ((runProgram p).1.deco d).s k) :=
+  ⟨(deps_program p).ctor, (deps_program p).deco⟩
+
+theorem C03_success_leaves_dependencies_built (p : Program) (i s f : Nat) (info : Bool)
+    (hok : (step p.ctx p.fns (runProgram p).1 i (.invoke s f info)).2.v = .ok) :
+    ∃ fn params w0, fnOf p.fns f = some fn ∧
+      parseParams p.types { (runProgram p).1 with log := [] } s fn = (.ok params, w0) ∧
+      ∀ k ∈ reqSinglesL params, HasKey (step p.ctx p.fns (runProgram p).1 i (.invoke s f info)).1 s k := by
+  have hd := reachable_deps p
+  generalize (runProgram p).1 = st at hd hok ⊢
+  have h0 : Deps { st with log := [] } := hd.frame (fr_of_same rfl (fun _ => ⟨rfl, rfl, rfl⟩) rfl rfl)
+  simp only [step] at hok ⊢
+  cases hf : fnOf p.fns f with
+  | none => rw [hf] at hok; simp at hok
+  | some fn =>
+    rw [hf] at hok
+    simp only at hok ⊢
+    split
+    · rename_i hs
+      rw [if_pos hs] at hok
+      obtain ⟨params, w0, hp, hall⟩ := (h0.invoke p.ctx fn s info).2 hok
+      exact ⟨fn, params, w0, rfl, hp, hall⟩
+    · rename_i hs; rw [if_neg hs] at hok; simp at hok
+
+theorem C03_available_means_built (p : Program) (c : Nat) (k : Key) (h : HasKey (runProgram p).1 c k) :
+    ∃ S ∈ (runProgram p).1.ancestors c,
+      (∃ d slot decl, d < (runProgram p).1.decos.length ∧ ((runProgram p).1.deco d).s = S ∧
+        (false, k, slot, decl) ∈ slotDecoLeaves p.types ((runProgram p).1.deco d).results) ∨
+      (∃ n slot decl, n < (runProgram p).1.ctors.length ∧ ((runProgram p).1.ctor n).s = S ∧
+        ((runProgram p).1.ctor n).called = true ∧ (k, slot, decl) ∈ slotLeaves ((runProgram p).1.ctor n).results) := by
+  obtain ⟨S, hS, hv⟩ := h
+  refine ⟨S, hS, ?_⟩
+  rcases hv with hv | hv
+  · cases hg : aget ((runProgram p).1.scope S).decoratedValues k with
+    | none => rw [hg] at hv; cases hv
+    | some v =>
+      obtain ⟨d, slot, decl, h1, h2, h3, _⟩ := (just2_program p).dvalues S k v hg
+      exact Or.inl ⟨d, slot, decl, h1, h2, h3⟩
+  · cases hg : aget ((runProgram p).1.scope S).values k with
+    | none => rw [hg] at hv; cases hv
+    | some v =>
+      obtain ⟨n, slot, decl, h1, h2, h3, h4, _⟩ := just_program p S k v hg
+      exact Or.inr ⟨n, slot, decl, h1, h2, h3, h4⟩
+
+#print axioms C03_built_nodes_have_their_dependencies
+#print axioms C03_success_leaves_dependencies_built
+#print axioms C03_available_means_built
 #print axioms C03_passive
 #print axioms C03_only
 #print axioms C03_dependencies_complete_first
